@@ -42,6 +42,25 @@ def hand_enumerate_capture(x: fp.Real, y: fp.Real, xs: list[fp.Real], k: fp.Real
     a = [sum([e * i for i in ws]) for i, e in enumerate(xs)]
     b = [sum([p * q for q in ws]) + p for p, q in zip(xs, xs)]
     return (a, b)''',
+    'hand_source_rebound': '''@fp.fpy
+def hand_source_rebound(x: fp.Real, y: fp.Real, xs: list[fp.Real], k: fp.Real):
+    ws = [[e + 1, y] for e in xs]
+    ys = [e * 2 for e in xs]
+    a = [sum([p * xs[0] for xs in ws]) + q for p, q in zip(xs, ys)]
+    b = [sum([e + xs[1] for xs in ws]) + i for i, e in enumerate(xs)]
+    return (a, b)''',
+    'hand_single_zip': '''@fp.fpy
+def hand_single_zip(x: fp.Real, y: fp.Real, xs: list[fp.Real], k: fp.Real):
+    acc = x
+    q = (y,)
+    for i, p in enumerate(zip(xs)):
+        acc = acc + i
+        q = p
+    r = (y,)
+    for p in zip(xs):
+        r = p
+    ps = [p for i, p in enumerate(zip(xs))]
+    return (acc, q, r, ps)''',
     'hand_mutate_iter': '''@fp.fpy
 def hand_mutate_iter(x: fp.Real, y: fp.Real, xs: list[fp.Real], k: fp.Real):
     acc = 0
@@ -168,6 +187,13 @@ def configs(tier: str):
     out.append(('fuse', lambda f: S.fuse(f), None))
     out.append(('elim_iter;unroll_for[1,where=0]', lambda f: S.unroll_for(S.elim_iter(f), 0, 1), None))
     out.append(('split[2,where=0];unroll_for[1,where=0]', lambda f: S.unroll_for(S.split(f, 2, 0), 0, 1), None))
+    # the loop named by a cursor instead of an index (the last site the strategy lists), and the remaining switches
+    out.append(('unroll_for[2,PEEL,cursor=last]', lambda f: S.unroll_for(f, S.sites(S.unroll_for, f, times=2)[-1], 2), None))
+    out.append(('unroll_while[2,cursor=last]', lambda f: S.unroll_while(f, S.sites(S.unroll_while, f)[-1], 2), None))
+    out.append(('split[3,PEEL,cursor=last]', lambda f: S.split(f, 3, S.sites(S.split, f, factor=3)[-1]), None))
+    out.append(('unroll_while[1,where=0]', lambda f: S.unroll_while(f, 0, 1), None))
+    out.append(('elim_iter[enumerate]', lambda f: S.elim_iter(f, enable_zip=False), None))
+    out.append(('unroll_for[1];elim_iter', lambda f: S.elim_iter(S.unroll_for(f, None, 1)), None))
     return out
 
 
@@ -289,7 +315,7 @@ def run(tier: str) -> int:
     equiv.run_agree(rep, agree, extra_key=key,
                     precondition_error=lambda meta, err: 'STRICT' in meta['config'] and err == 'AssertionError')
     rep.cov['distinct_nontrivial'] = len({(m['program'], m['xsrc']) for (_, _, m) in pairs})
-    rep.cov['rule'] = ('hand-written + generated loop programs x {unroll_for 1-3 PEEL/STRICT, unroll_while 1-2, split 2-3 PEEL/STRICT, '
+    rep.cov['rule'] = ('hand-written + generated loop programs x {unroll_for 1-3 PEEL/STRICT, unroll_while 1-2, split 2-3 and variable PEEL/STRICT (loops named by index, cursor or all), '
                        'elim_iter, fuse, compositions} x list lengths 0..7 x caller contexts; STRICT judged only on lengths divisible by the '
                        'factor; non-trivial = distinct transformed program')
     for (o, x, m) in pairs[:2]:
